@@ -781,6 +781,34 @@ Proof.
            ops m_new_empty [] new_empty_repr Hok).
 Qed.
 
+(* String_Hash / Len / C_Str / Cmp / Mem keep no state of their own in the source (Generated.v) *)
+Lemma gen_hash_stateless : string_hash_stateless = true.
+Proof. reflexivity. Qed.
+Lemma gen_observers_pure : string_observers_pure = true.
+Proof. reflexivity. Qed.
+
+(* hash is a function of the current characters only: whatever the allocation looks like behind
+   the terminator and whatever history produced it *)
+Theorem hash_of_characters_only b s : repr b s -> c_step b OHash = (b, SHash (murmur64 s)).
+Proof.
+  intros Hr. destruct (c_step_refines b s OHash Hr I) as [b' [E _]].
+  unfold c_step, m_step, obs in *. rewrite (repr_c_str _ _ Hr) in *. reflexivity.
+Qed.
+
+Theorem hash_independent_of_history v1 ops1 v2 ops2 :
+  nulfree v1 -> Forall op_ok ops1 -> nulfree v2 -> Forall op_ok ops2 ->
+  snd (spec_run v1 ops1) = snd (spec_run v2 ops2) ->
+  exists b1 b2 f1 f2, c_new v1 = Some b1 /\ c_new v2 = Some b2 /\
+    snd (c_run b1 ops1) = f1 /\ snd (c_run b2 ops2) = f2 /\
+    snd (c_step f1 OHash) = snd (c_step f2 OHash).
+Proof.
+  intros H1 O1 H2 O2 E.
+  destruct (c_history_refines v1 ops1 H1 O1) as [b1 [f1 [N1 [R1 P1]]]].
+  destruct (c_history_refines v2 ops2 H2 O2) as [b2 [f2 [N2 [R2 P2]]]].
+  exists b1, b2, f1, f2. rewrite R1, R2. repeat split; try assumption.
+  rewrite (hash_of_characters_only _ _ P1), (hash_of_characters_only _ _ P2), E. reflexivity.
+Qed.
+
 Theorem repr_iff_c_str b s : repr b s <-> c_str b = Some s.
 Proof. split; [apply repr_c_str|apply c_str_inv]. Qed.
 
